@@ -186,7 +186,7 @@ def check_case(case):
         if case.get("via") == "package":
             import pyscsi
 
-            init_device = pyscsi.init_device
+            init_device = getattr(pyscsi, "init_device", init_device)  # (the package re-exports pyscsi.utils)
         if case.get("kw"):
             call = (lambda: init_device(dev, read_write=rw)) if ini is None else (
                 lambda: init_device(dev, read_write=rw, initiator_name=ini))
